@@ -284,7 +284,9 @@ pub fn run_check(prop: &dyn Prop, tier: Tier, seed: u64, triage: bool) -> i32 {
             agg.inconclusive.push(format!("cannot spawn worker: {}", e));
         }
     }
-    let budget = prop.wall_budget_s(tier);
+    // VERIF_WALL_BUDGET_FACTOR: sanitizer builds run the same workload several times slower
+    let budget = prop.wall_budget_s(tier)
+        * std::env::var("VERIF_WALL_BUDGET_FACTOR").ok().and_then(|s| s.parse::<u64>().ok()).unwrap_or(1).max(1);
     let known = load_known(id);
     let mut deaths_by_class: BTreeMap<String, u64> = BTreeMap::new();
     let mut live = nw;
